@@ -48,6 +48,23 @@ struct Canon {
   std::vector<std::array<uint64_t, 3>> positions;  // multiset of vertex positions after merging
 };
 
+// (originalID, transform bits, flags) of the runs without triangles, in table order
+static std::vector<std::array<uint64_t, 14>> emptyRuns(const MeshGL64& g) {
+  std::vector<std::array<uint64_t, 14>> out;
+  for (size_t r = 0; r + 1 < g.runIndex.size() && r < g.runOriginalID.size(); ++r) {
+    if (g.runIndex[r] / 3 != g.runIndex[r + 1] / 3) continue;
+    std::array<uint64_t, 14> a;
+    a.fill(0);
+    a[0] = g.runOriginalID[r];
+    a[1] = r < g.runFlags.size() ? g.runFlags[r] : 0;
+    for (int k : {0, 4, 8}) a[2 + k] = bits(1.0);
+    if (g.runTransform.size() >= 12 * (r + 1))
+      for (int k = 0; k < 12; ++k) a[2 + k] = bits(g.runTransform[12 * r + k]);
+    out.push_back(a);
+  }
+  return out;
+}
+
 static Canon canon(const MeshGL64& g, bool withTangents, bool withProps, bool withFace, bool withRuns) {
   Canon c;
   const size_t nt = g.NumTri();
@@ -129,7 +146,7 @@ static Manifold build(int prog, std::mt19937& rng) {
   Manifold cube = Manifold::Cube(vec3(1.0), true);
   Manifold sph = Manifold::Sphere(0.7, 12);
   Manifold tet = Manifold::Tetrahedron();
-  switch (prog % 16) {
+  switch (prog % 21) {
     case 0: return cube + sph.Translate({r(), r() * 0.5, 0});                         // two runs
     case 1: return cube - sph.Translate({r(), 0.2, 0.1});                             // back-side run
     case 2: return (cube ^ sph.Translate({r() * 0.5, 0, 0})) + tet.Scale(vec3(0.3)).Translate({2, 0, 0});
@@ -139,6 +156,15 @@ static Manifold build(int prog, std::mt19937& rng) {
     }
     case 4: return (sph + Manifold::Sphere(0.5, 10).Translate({0.4 + 0.4 * r(), 0.1, 0})).SmoothOut();   // finite tangents on two runs
     case 14: return (sph + sph.Translate({2 + r(), 0, 0})).SmoothOut();                 // two disjoint smooth runs
+    // results with EMPTY runs: an operand that contributes no triangle still gets a run
+    case 16: return cube + Manifold::Sphere(0.2 + 0.1 * r(), 10);                       // nested union: inner part vanishes
+    case 17: return sph - cube.Scale(vec3(0.2)).Translate({0.6, 0.6, 0.55 + 0.1 * r()});  // cutter overlaps the bbox but misses
+    case 18: return (cube + tet.Translate({5, 0, 0})) ^ cube.Scale(vec3(1.2 + r()));    // operand fully removed
+    case 19: return Manifold::Compose({cube, Manifold::Sphere(0.3, 8).Translate({3, 0, 0})}) ^ cube.Scale(vec3(1.5));
+    case 20: {                                                                          // empty instance between non-empty runs
+      Manifold a = Manifold::Sphere(0.25, 8).AsOriginal();
+      return cube + a.Scale(vec3(0.5 + 0.5 * r())) + a.Translate({2, 0, 0}) + tet.Scale(vec3(0.1));
+    }
     case 15: return (cube + sph.Translate({r(), r(), r()})).SmoothOut(50 + 20 * r());   // sharp + smooth: non-finite tangents
     case 5: return (cube - tet.Scale(vec3(0.8)).Translate({r() * 0.3, 0, 0})).SmoothOut();
     case 6: return cube.CalculateNormals(0) + sph.CalculateNormals(0).Translate({r(), 0.1, 0});  // property seams + normals
@@ -165,7 +191,7 @@ int main() {
     Manifold m = build(prog, rng);
     MeshGL64 g1 = m.GetMeshGL64();
     std::ostringstream os;
-    os << "C " << id << " prog=" << prog % 16 << " st=" << (int)m.Status() << " runs=" << g1.runOriginalID.size()
+    os << "C " << id << " prog=" << prog % 21 << " st=" << (int)m.Status() << " runs=" << g1.runOriginalID.size()
        << " tris=" << g1.NumTri() << " props=" << g1.numProp - 3 << " tangents=" << (g1.halfedgeTangent.empty() ? 0 : 1)
        << " merges=" << g1.mergeFromVert.size();
     {
@@ -173,6 +199,7 @@ int main() {
       for (auto x : g1.halfedgeTangent) if (!std::isfinite(x)) nf++;
       os << " tan_nonfinite=" << nf;
     }
+    os << " empties=" << emptyRuns(g1).size();
     if (m.Status() != Manifold::Error::NoError || g1.NumTri() == 0) {
       os << " SKIP";
       puts(os.str().c_str());
@@ -191,6 +218,7 @@ int main() {
       Canon a = canon(g1, false, false, false, false), b = canon(g2, false, false, false, false);
       os << " positions=" << (a.positions == b.positions ? 1 : 0);
     }
+    os << " empty_runs_ok=" << (emptyRuns(g1) == emptyRuns(g2) ? 1 : 0) << " numruns=" << (g1.runOriginalID.size() == g2.runOriginalID.size() ? 1 : 0);
     os << " triangles=" << cmp(false, false, false, false) << " runs_ok=" << cmp(false, false, false, true)
        << " faceid=" << cmp(false, false, true, false) << " props_ok=" << cmp(false, true, false, true)
        << " tangent=" << cmp(true, false, false, false)
